@@ -117,6 +117,63 @@ def wu(x, n):
     return to_words(x, n)
 
 
+def summary_event(L, n, a, b, res, label, regime):
+    import ctypes
+    out = (ctypes.c_uint64 * 3)()
+    A, B, R = Buf(8 * n), Buf(8 * n), Buf(8 * n)
+    A.i64[:] = a
+    B.i64[:] = b
+    R.i64[:] = res
+    L.fn("rm_product_maxdiff", "v upppp", L.rm)(n, A.addr, B.addr, R.addr, ctypes.addressof(out))
+    maxd = int(out[0]) | (int(out[1]) << 64)
+    A1, Ai, A2 = norms(a)
+    B1, Bi, B2 = norms(b)
+    return {"e": "Summary", "N": n, "maxd": wu(maxd, 8), "A1": wu(A1, 6), "Ainf": wu(Ai, 4), "A2sq": wu(A2, 8),
+            "B1": wu(B1, 6), "Binf": wu(Bi, 4), "B2sq": wu(B2, 8), "_what": label + " maxdev=%d at %d" % (maxd, out[2]),
+            "_regime": regime}
+
+
+def drive_dense(rec, part, ns):
+    """The corner of the domain where the norms themselves no longer fit 64 bits: every coefficient of one operand at
+    +-2^e (e = 47..49, so that ||a||_1 reaches 2^63 .. 2^65 at N = 32768 / 65536), the other operand sparse and small:
+    min(||a||_1 ||b||_inf, ||a||_inf ||b||_1) stays below 2^52, the product is inside the documented budget."""
+    rng = random.Random(rec.seed * 977 + part)
+    L = Lib.get()
+    events = []
+    combos = [(n, e, path, side) for n in ns for e in (47, 48, 49) for path in ("small", "svp", "svp_tmp_a") for side in (0, 1)]
+    for idx, (n, e, path, side) in enumerate(combos):
+        if idx % 4 != part:
+            continue
+        signs = rng.choice(["plus", "minus", "alt", "random"])
+        sa = {"plus": np.ones(n, dtype=np.int64), "minus": -np.ones(n, dtype=np.int64),
+              "alt": np.where(np.arange(n) % 2 == 0, 1, -1).astype(np.int64),
+              "random": np.array([rng.choice([1, -1]) for _ in range(n)], dtype=np.int64)}[signs]
+        dense = sa * (1 << e)
+        sparse = np.zeros(n, dtype=np.int64)
+        for _ in range(rng.randrange(1, 3)):
+            sparse[rng.randrange(n)] += rng.choice([1, -1])
+        if not sparse.any():
+            sparse[0] = 1
+        a, b = (dense, sparse) if side == 0 else (sparse, dense)      # side 0: the dense operand is the one that is applied
+        mask = rng.choice([MASK_NONE, MASK_GENERIC])
+        label = "product path=%s N=%d mask=%d dense 2^%d (%s signs) as operand %d times sparse" % (path, n, mask, e, signs, side)
+        if not rec.progress(label):
+            continue
+        mod = L.module(n, FFT64, mask)
+        L.set_cpu_mask(MASK_NONE)
+        res = product(L, mod, n, a, b, path, rng)
+        L.call("delete_module_info", mod)
+        rec.case((path, mask, n, "dense-pow2", e, side))
+        if res is None:
+            rec.violation(label + ": operand or buffer contract broken", {"N": n, "path": path})
+            continue
+        if side == 1:
+            events.append(summary_event(L, n, b, a, res, label, "dense-pow2"))      # the exact product is symmetric: sparse operand second
+        else:
+            events.append(summary_event(L, n, a, b, res, label, "dense-pow2"))
+    rec.data["events"] = events
+
+
 def drive_b(rec, part, ns, count, scale):
     rng = random.Random(rec.seed * 71 + part)
     L = Lib.get()
@@ -142,19 +199,7 @@ def drive_b(rec, part, ns, count, scale):
             events.append({"e": "Prod", "N": n, "a": [wu(int(x), 4) for x in a], "b": [wu(int(x), 4) for x in b],
                            "res": [wu(int(x), 4) for x in res], "_what": label})
         else:
-            import ctypes
-            out = (ctypes.c_uint64 * 3)()
-            A, B, R = Buf(8 * n), Buf(8 * n), Buf(8 * n)
-            A.i64[:] = a
-            B.i64[:] = b
-            R.i64[:] = res
-            L.fn("rm_product_maxdiff", "v upppp", L.rm)(n, A.addr, B.addr, R.addr, ctypes.addressof(out))
-            maxd = int(out[0]) | (int(out[1]) << 64)
-            A1, Ai, A2 = norms(a)
-            B1, Bi, B2 = norms(b)
-            events.append({"e": "Summary", "N": n, "maxd": wu(maxd, 8), "A1": wu(A1, 6), "Ainf": wu(Ai, 4), "A2sq": wu(A2, 8),
-                           "B1": wu(B1, 6), "Binf": wu(Bi, 4), "B2sq": wu(B2, 8), "_what": label + " maxdev=%d at %d" % (maxd, out[2]),
-                           "_regime": regime})
+            events.append(summary_event(L, n, a, b, res, label, regime))
     rec.data["events"] = events
 
 
@@ -180,6 +225,8 @@ def run(chk, replay=None):
     # 3. scale
     big = [64, 256, 1024, 4096, 16384] if quick else [64, 256, 1024, 4096, 8192, 16384, 32768, 65536]
     jobs += [("products at scale, part %d" % i, drive_b, (100 + i, big, 20 if quick else 60, True)) for i in range(8)]
+    jobs += [("dense power-of-two operands at the largest dimensions, part %d" % i, drive_dense,
+              (i, [32768, 65536] if quick else [1024, 16384, 32768, 65536])) for i in range(4)]
     res = isolated_many(chk, jobs, timeout=3000, nproc=12)
     events = [ev for d in res if d for ev in d["events"]]
     clean = [{k: v for k, v in ev.items() if not k.startswith("_")} for ev in events]
@@ -190,7 +237,7 @@ def run(chk, replay=None):
     chk.traces += direct - sum(1 for b in bad if events[b]["e"] == "Prod")
     chk.cov["products_validated_directly_by_tlc"] = direct
     chk.cov["scaled_via_refmodel"] = len(events) - direct
-    chk.cov["regimes"] = {r: sum(1 for ev in events if ev.get("_regime") == r) for r in ("exact-edge", "budget-edge", "mid")}
+    chk.cov["regimes"] = {r: sum(1 for ev in events if ev.get("_regime") == r) for r in ("exact-edge", "budget-edge", "mid", "dense-pow2")}
     chk.cov["rule"] = ("one case = (entry path small/svp/svp_tmp_a, dispatch mask, N, regime) or an API call of a replayed program; "
                        "operands drawn from all-max/alternating/resonant/sparse/single/mixed/random families scaled to the edge of "
                        "exactness (E just below 1/2), to the budget limit, or in between")
